@@ -270,6 +270,16 @@ example :
       (convertStep none (some ["D"]) l).isNone = true := by
   constructor <;> decide
 
+/-- non-vacuity for the configuration classes: `--config` on a spot-wise image (a `SpotConfig`, two
+spacings) stores the explicit raster parameters and nothing of the loaded configuration; without
+`--config` the spot configuration is the one stored -/
+example :
+    let l : Laser := { elements := ["A", "B"], data := ⟨1, 1, fun _ _ _ => 0⟩, config := .spot 25 40 }
+    (convertStep (some (.raster 10 20 5)) none l).map (·.config) = some (.raster 10 20 5) ∧
+      (convertStep (some (.raster 10 20 5)) (some ["B"]) l).map (·.config) = some (.raster 10 20 5) ∧
+      (convertStep none (some ["A"]) l).map (·.config) = some (.spot 25 40) := by
+  refine ⟨?_, ?_, ?_⟩ <;> decide
+
 /-- Filtering changes only the selected elements that the image has — each becomes the filter of
 the original field, whatever the order of the names — and nothing else (names, config, shape, other
 fields).  Hypotheses: field names are distinct (NumPy guarantees it) and `--elements` has no
